@@ -359,7 +359,9 @@ def mixture_saliency_is_repetition(model, y, emb, init, counts, iterations, opt)
         return Skip(f'explicit rejection: {type(e).__name__}')
     if tu.ill_conditioned(model, a) or tu.ill_conditioned(model, b):
         return Skip('a class collapsed (ill-conditioned parameters): comparison dominated by rounding')
-    tol = 1e-6
+    # cBMM: the Bingham parameters come out of a bounded least-squares solver (external) that reacts to 1-ulp changes of the
+    # scatter eigenvalues at the 1e-6 level (posterior_util.tolerances uses the same 1e-4 for its parameters)
+    tol = 1e-4 if model == 'cbmm' else 1e-6
     wa, wb = np.asarray(a.weight, dtype=np.float64), np.asarray(b.weight, dtype=np.float64)
     if lead and tuple(tu.wca_axes(opt['weight_constant_axis'])) == (-3,) and wb.ndim and wb.shape[-1] == counts.sum():
         # one weight per (class, frame): every copy of a repeated frame carries the weight of the original frame
